@@ -190,23 +190,25 @@ def _check_wiring(res: Result, proj, rnd, absc, piv, ks, comp):
     pen = [[0., 1., 2., 3., 4., 5.], [6., 6., 0., 7., 7., 8.]]
     sch = w.rt.new(SS, [[list(pen[0]), list(pen[1])]], {})
     alg = w.rt.new(rnd, [], {})
-    choices = []
-
-    def choice(a, kw, ev, node):
-        choices.append(list(a[0]))
-        return a[0][0]
-    w.rt.externals["random.choice"] = ExternalFunc(choice)
-    # pivot
+    # pivot: whatever the source of randomness (python or numpy, module-level or a generator object), under every draw
+    # policy the pivot is one of the remaining elements, and different draws reach different elements
     id_map = w.call(ds, "mapping_elem_id")
-    remaining = [e for e in id_map][1:3]
-    st, pv = w.safe("_get_pivot", w.rt.call_method, alg, piv.name, id_map, list(remaining), w.call(ds, "get_positions"),
-                    [list(pen[0]), list(pen[1])])
-    good = st == "ok" and len(choices) == 1 and len(choices[0]) == len(remaining) and \
-        all(any(x is y for y in remaining) for x in choices[0]) and any(pv is y for y in remaining)
+    remaining = [e for e in id_map][1:4]
+    outcomes = {}
+    for mode in ("first", "last", "middle"):
+        w.rt.random.mode = mode
+        del w.rt.random.log[:]
+        st, pv = w.safe("_get_pivot", w.rt.call_method, alg, piv.name, id_map, list(remaining), w.call(ds, "get_positions"),
+                        [list(pen[0]), list(pen[1])])
+        outcomes[mode] = (st, pv, list(w.rt.random.log))
+    w.rt.random.mode = "first"
+    good = all(st == "ok" and any(pv is y for y in remaining) and log_ for st, pv, log_ in outcomes.values()) and \
+        len({id(pv) for _st, pv, _l in outcomes.values()}) >= 2
     res.check(good, "V4", "KwikSortRandom._get_pivot:choice(elements)", piv.loc(),
-              ok_detail="the pivot is drawn (random.choice) from exactly the remaining elements",
-              bad_detail=f"remaining {[w.key(e)[1] for e in remaining]}: outcome {st}, drawn from "
-                         f"{[[w.key(e)[1] if hasattr(e, 'attrs') else e for e in c] for c in choices]!r}")
+              ok_detail="the pivot is drawn at random among exactly the remaining elements",
+              bad_detail="remaining %r: %s" % ([w.key(e)[1] for e in remaining], "; ".join(
+                  f"draw policy {m}: {st} {w.key(pv)[1] if hasattr(pv, 'attrs') else pv!r} (draws {lg})"
+                  for m, (st, pv, lg) in outcomes.items())))
     # entry point -> sorter
     seen = []
 
@@ -244,42 +246,34 @@ def run_v3_only(res: Result, proj):
 
 
 def check_emission(res: Result, proj, rule: str):
+    """`_kwik_sort` (recursive or iterative, whatever helper it uses) evaluated on four elements with the pivot choice
+    scripted (first / third remaining element) and the placement routine replaced by a consistent oracle: every element
+    has a rank, x goes before / with / after the pivot according to the sign of rank(x) - rank(pivot). Whatever the
+    sequence of pivots, the emitted buckets must be the elements grouped by rank, in increasing rank, each once."""
     absc = proj.cls(MOD_ABS, "KwikSortAbs")
     ks = proj.method(absc, "_kwik_sort")
     rnd_ = proj.cls(MOD_RND, "KwikSortRandom")
     HOOK_NAMES.update(pivot=proj.method(rnd_, "_get_pivot").name, where=proj.method(rnd_, "_where_should_it_be").name,
                       sort=ks.name)
     res.saw(ks)
-    # ------------------------------------------------------------------ V3
     bad = None
     n = 0
     del PIVOT_PROBLEMS[:]
     elems = ["p", "a", "b", "c"]
     for pivot_idx in (0, 2):
-        order = elems[pivot_idx:] + elems[:pivot_idx]
-        for signs in itertools.product((-2, 0, 3), repeat=3):
+        for ranks in itertools.product((-2, 0, 3), repeat=3):
             n += 1
-            sign_of = dict(zip([e for e in elems if e != "p"], signs))
-            got = _eval_kwik(ks, order, sign_of)
-            before = [e for e in order if e != "p" and sign_of[e] < 0]
-            same = ["p"] + [e for e in order if e != "p" and sign_of[e] == 0]
-            after = [e for e in order if e != "p" and sign_of[e] > 0]
-            want = []
-            if before:
-                want.append(("bucket", before) if len(before) == 1 else ("rec", before))
-            want.append(("bucket", same))
-            if after:
-                want.append(("bucket", after) if len(after) == 1 else ("rec", after))
-            norm_got = [(k, sorted(v) if k == "bucket" else sorted(v)) for k, v in got]
-            norm_want = [(k, sorted(v)) for k, v in want]
-            if norm_got != norm_want and bad is None:
-                bad = (order, sign_of, got, want)
+            rank = dict(zip(["a", "b", "c"], ranks))
+            rank["p"] = 0
+            got = _eval_kwik(ks, list(elems), rank, pivot_idx)
+            want = [sorted(e for e in elems if rank[e] == v) for v in sorted(set(rank.values()))]
+            if [sorted(b) for b in got] != want and bad is None:
+                bad = (elems, rank, got, want)
     if PIVOT_PROBLEMS and bad is None:
         bad = (elems, {}, PIVOT_PROBLEMS[0], "the pivot hook must receive the remaining elements")
     res.check(bad is None, rule, "_kwik_sort:partition-and-emission", ks.loc(),
               ok_detail=f"{n} worlds: negative before the pivot's bucket, zero inside it, positive after, each once",
-              bad_detail=(f"remaining={bad[0]} signs={bad[1]}: emitted {bad[2]}, expected {bad[3]}") if bad else "")
-
+              bad_detail=(f"elements {bad[0]} with ranks {bad[1]}: emitted {bad[2]}, expected {bad[3]}") if bad else "")
 
 
 PIVOT_PROBLEMS: List[str] = []
@@ -289,48 +283,39 @@ HOOK_NAMES = {"pivot": "_get_pivot", "where": "_where_should_it_be", "sort": "_k
                                                                                              # them with the anchors found
 
 
-def _eval_kwik(ks, remaining: List[str], sign_of) -> List:
+def _eval_kwik(ks, remaining: List[str], rank, pivot_idx: int = 0) -> List:
     out: List = []
     p = ks.param_names  # self, consensus, remaining_elements, mapping_element_id, positions, scoring_scheme
+    depth = [0]
 
     def get_pivot(ev, call):
         args = [ev.ev(a) for a in call.args] + [ev.ev(k.value) for k in call.keywords]
-        if not any(isinstance(a, list) and sorted(a) == sorted(remaining) for a in args):
-            PIVOT_PROBLEMS.append(f"pivot chosen among {[a for a in args if isinstance(a, list)]!r}, remaining elements are "
-                                  f"{remaining}")
-        return "p"
+        lists = [a for a in args if isinstance(a, list) and a and all(isinstance(x, str) for x in a)]
+        if not lists:
+            PIVOT_PROBLEMS.append(f"pivot chosen among {[a for a in args if isinstance(a, list)]!r}: not a list of remaining elements")
+            return "p"
+        rem = lists[0]
+        depth[0] += 1
+        if depth[0] > 50:
+            raise Unsupported("the sorter keeps choosing pivots (no progress)", call)
+        return rem[min(pivot_idx, len(rem) - 1)]
 
     def where(ev, call):
-        other = ev.ev(call.args[1])
+        pv, other = ev.ev(call.args[0]), ev.ev(call.args[1])
         if not (isinstance(other, Sym) and other.name == "POS" and len(other.idx) == 1):
-            raise Unsupported("second argument of _where_should_it_be is not the other element's positions", call)
-        pv = ev.ev(call.args[0])
-        if pv != Sym("POS", ("id_p",)):
-            raise Unsupported("first argument of _where_should_it_be is not the pivot's positions", call)
-        name = other.idx[0][3:]
-        if name == "p":
-            return 0            # the pivot compared with itself (not done by today's code)
-        return sign_of[name]
-
-    def rec(ev, call):
-        lst = ev.ev(call.args[1])
-        cons = ev.ev(call.args[0])
-        cons.append(("REC", list(lst)))
-        return None
+            raise Unsupported("second argument of the placement routine is not the other element's positions", call)
+        if not (isinstance(pv, Sym) and pv.name == "POS" and len(pv.idx) == 1):
+            raise Unsupported("first argument of the placement routine is not the pivot's positions", call)
+        d = rank[other.idx[0][3:]] - rank[pv.idx[0][3:]]
+        return -1 if d < 0 else (1 if d > 0 else 0)
 
     env = {"self": Sym("self"), p[1]: out, p[2]: list(remaining),
            p[3]: {e: "id_" + e for e in ["p", "a", "b", "c"]}, p[4]: Sym("POS"), p[5]: Sym("SCH")}
     evl = Evaluator(env, funcs={"." + HOOK_NAMES["pivot"]: get_pivot, "." + HOOK_NAMES["where"]: where,
-                                "." + HOOK_NAMES["sort"]: rec,
                                 "Element": lambda ev, call: "NOPIVOT"})
+    evl.max_steps = 20000
     try:
         evl.run(ks.body_without_docstring())
     except Unsupported as exc:
         raise AnalysisError(f"{ks.qualname}: unsupported construct line {getattr(exc.node, 'lineno', '?')}: {exc}")
-    res = []
-    for item in out:
-        if isinstance(item, tuple) and item and item[0] == "REC":
-            res.append(("rec", item[1]))
-        else:
-            res.append(("bucket", list(item)))
-    return res
+    return [list(item) for item in out]
